@@ -40,12 +40,14 @@ fn p_grid(n: usize, points: usize) -> Vec<f64> {
 /// (counts as "does not cover"). The three kinds are requested one after the other for each
 /// outcome, so that a result depending on the previous call (a stale cache keyed by the
 /// level only, say) shows up in the coverage of at least one kind.
-fn impl_prop_intervals(n: usize, level: f64, s: &mut Sink) -> [Vec<Option<(f64, f64)>>; 3] {
+fn impl_prop_intervals(n: usize, level: f64, ratio_form: bool, s: &mut Sink) -> [Vec<Option<(f64, f64)>>; 3] {
     let mut out = [vec![], vec![], vec![]];
     for k in 0..=n {
         for (i, kind) in KINDS.iter().enumerate() {
             s.calls += 1;
-            out[i].push(match proportion::ci(conf(*kind, level), n, k) {
+            // (ratio form: the interval a user gets who holds the observed rate k/n)
+            let r = if ratio_form { proportion::ci_wilson_ratio(conf(*kind, level), n, k as f64 / n as f64) } else { proportion::ci(conf(*kind, level), n, k) };
+            out[i].push(match r {
                 Ok(Interval::TwoSided(a, b)) => Some((a, b)),
                 Ok(Interval::UpperOneSided(a)) => Some((a, f64::INFINITY)),
                 Ok(Interval::LowerOneSided(b)) => Some((f64::NEG_INFINITY, b)),
@@ -161,8 +163,9 @@ fn kidx(k: Kind) -> usize {
 fn judge_prop(n: usize, points: usize, s: &mut Sink) {
     let grid = p_grid(n, points);
     let pmfs: Vec<Vec<f64>> = grid.iter().map(|&p| binom_pmf_vec(n, p)).collect();
-    for (li, &level) in LEVELS.iter().enumerate() {
-        let ivs = impl_prop_intervals(n, level, s);
+    for (li, &level, ratio_form) in LEVELS.iter().enumerate().flat_map(|(li, l)| [(li, l, false), (li, l, true)]) {
+        let ivs = impl_prop_intervals(n, level, ratio_form, s);
+        let via = if ratio_form { "ci_wilson_ratio(n, k/n)" } else { "ci(n, k)" };
         for kind in KINDS {
             s.evals += grid.len() as u64; // one exact coverage sum per (n, confidence, p)
             let iv = &ivs[kidx(kind)];
@@ -176,20 +179,20 @@ fn judge_prop(n: usize, points: usize, s: &mut Sink) {
             if !(st.min_dev >= -slack_n) {
                 s.violation(
                     format!("proportion/pointwise-coverage-below-method-slack-at-n/{}/{}", kind.name(), level),
-                    format!("n={n} {} {level}: exact coverage at p={} is {:.5}; the Wilson method itself bottoms out at {:.5} for this n (slack {slack_n:.4})", kind.name(), st.min_at, level + st.min_dev, level + om.min_dev),
+                    format!("n={n} {} {level} via {via}: exact coverage at p={} is {:.5}; the Wilson method itself bottoms out at {:.5} for this n (slack {slack_n:.4})", kind.name(), st.min_at, level + st.min_dev, level + om.min_dev),
                     json!({"check":"proportion","n":n,"kind":kind,"level":level,"points":points}),
                 );
             }
             if !((st.mean_dev - om.mean_dev).abs() <= 0.0004) {
                 s.violation(
                     format!("proportion/average-coverage-differs-from-method-at-n/{}/{}", kind.name(), level),
-                    format!("n={n} {} {level}: mean exact coverage {:.5}, the Wilson method gives {:.5}", kind.name(), level + st.mean_dev, level + om.mean_dev),
+                    format!("n={n} {} {level} via {via}: mean exact coverage {:.5}, the Wilson method gives {:.5}", kind.name(), level + st.mean_dev, level + om.mean_dev),
                     json!({"check":"proportion","n":n,"kind":kind,"level":level,"points":points}),
                 );
             }
             s.max(&format!("prop_pointwise_shortfall_over_slack[{}]", kind.name()), -st.min_dev / slack, || format!("n={n} L={level} p={}", st.min_at));
             s.max(&format!("prop_avg_dev_over_slack[{}]", kind.name()), st.mean_dev.abs() / PROP_AVG[kidx(kind)][li], || format!("n={n} L={level}"));
-            s.outcome(&("prop", n, kind, li, (st.min_dev * 1e6) as i64));
+            s.outcome(&("prop", n, kind, li, ratio_form, (st.min_dev * 1e6) as i64));
             if !(st.min_dev >= -slack) {
                 s.violation(
                     format!("proportion/pointwise-coverage-below-slack/{}/{}", kind.name(), level),
@@ -476,7 +479,7 @@ fn main() {
     s.sample(json!({"check":"proportion","n":100,"kind":"Two","level":0.95,"what":"C(n,p) = sum_k pmf(k;n,p) [lo_k <= p <= hi_k] over all 101 outcomes, for every p of the grid in [0.1, 0.9]"}));
     s.sample(json!({"check":"quantile","n":200,"kind":"Upper","level":0.9,"what":"P(B >= lo+1), B~Bin(200,q), ranks from ci_indices, q = i/193 with nq, n(1-q) >= 10"}));
     rep.note("slack_table", json!({"PROP_POINT":PROP_POINT,"PROP_AVG":PROP_AVG,"QUANT_ATOMS":QUANT_ATOMS,"QUANT_AVG":QUANT_AVG,"levels":LEVELS,"kinds":["two-sided","upper","lower"]}));
-    rep.rule = format!("proportion: n in {:?}, all outcomes k=0..n through proportion::ci (Err = no cover), {} p values in [10/n, 1-10/n], levels {:?} x 3 kinds, plus the population 2^32+2^20+3 at p in {{0.3, 0.9}} summed over all outcomes within 9.5 sd of np; quantile: n in {:?}, q = i/193 with nq,n(1-q)>=10 and the extreme grid q n = 1/2..9 1/2 (coverage of whatever is returned), ranks from quantile::ci_indices; coverage is an exact sum over all outcomes; distinct by (n, kind, level, coverage statistic)", prop_ns(tier), 2001, LEVELS, quant_ns(tier));
+    rep.rule = format!("proportion: n in {:?}, all outcomes k=0..n through proportion::ci and through ci_wilson_ratio(n, k/n) (Err = no cover), {} p values in [10/n, 1-10/n], levels {:?} x 3 kinds, plus the population 2^32+2^20+3 at p in {{0.3, 0.9}} summed over all outcomes within 9.5 sd of np; quantile: n in {:?}, q = i/193 with nq,n(1-q)>=10 and the extreme grid q n = 1/2..9 1/2 (coverage of whatever is returned), ranks from quantile::ci_indices; coverage is an exact sum over all outcomes; distinct by (n, kind, level, coverage statistic)", prop_ns(tier), 2001, LEVELS, quant_ns(tier));
     rep.assume("slack constants are properties of the textbook Wilson method computed by the oracle (c12 calibrate) with +25% margin; they are frozen in c12_*.in and never derived from the implementation");
     rep.assume("binomial pmf from the oracle's recurrence, self-tested against mpmath");
     rep.require(s.distinct() >= 20, "fewer than 20 distinct coverage statistics: vacuous");
